@@ -162,6 +162,18 @@ def extract(R):
         need(fn in tables, f'converter {fn} not found')
         need(len(tables[fn]['unknown_key_checks']) >= 0, '')
     out['convert'] = tables
+    # every (section, key) pair the converters write into the service with a literal key (add / set / prepend / add_raw)
+    conv_src = strip_comments(strip_tests(rd('quadlet/convert.rs')))
+    SEC = {'UNIT_SECTION': 'Unit', 'SERVICE_SECTION': 'Service', 'INSTALL_SECTION': 'Install'}
+    pairs = []
+    for sec, key in re.findall(r'\.(?:add|set|prepend|add_raw|set_raw)\(\s*(\w+_SECTION),\s*"(\w+)"', conv_src):
+        p = (SEC.get(sec, sec), key)
+        if p not in pairs:
+            pairs.append(p)
+    need(len(pairs) >= 10, 'written (section, key) pairs not found')
+    need(not re.search(r'\.(?:add|set|prepend|add_raw|set_raw)\(\s*\w+_SECTION,\s*(?![\s"])', conv_src),
+         'a converter writes an entry whose key is not a string literal: the key-level frame (C07) cannot list it')
+    out['written_pairs'] = sorted(pairs)
 
     m = strip_comments(strip_tests(rd('main.rs')))
     out['sorting_priority'] = dict((k.lower(), int(v)) for k, v in re.findall(r'\(QuadletType::(\w+),\s*(\d+)\)', m))
@@ -254,6 +266,7 @@ def render_lean(t):
     a('def lookupKinds : List (Str × Str × Str × Str) := [')
     a(',\n'.join(f'  ({lean_str(f)}, {lean_str(k)}, {lean_str(s)}, {lean_str(key)})' for f, k, s, key in kinds))
     a(']')
+    pairs_ss('writtenPairs', t['written_pairs'])
     a('def unknownKeyChecks : List (Str × Str × Str) := [')
     chk = [(fn, s, tb) for fn, d in sorted(t['convert'].items()) for s, tb in d['unknown_key_checks']]
     a(',\n'.join(f'  ({lean_str(f)}, {lean_str(s)}, {lean_str(tb)})' for f, s, tb in chk))
